@@ -281,6 +281,36 @@ def r7_nested_concrete(repo):
                       "otherwise a raw generic class ends up inside the type arguments of a returned type, where the outer "
                       "to_type does not look; found concrete_only=%s include_self=%s"
                       % (src(co) if co is not None else "default False", src(inc) if inc is not None else "default")))
+    # direction of each nested search: along the query direction in covariant position, against it in contravariant one
+    gs_name = f.params[3]
+    for i, c in enumerate(cs):
+        d = kwarg(c, "get_subtypes", 2)
+        if d is None:
+            direction = "?"
+        elif isinstance(d, ast.Name) and d.id == gs_name:
+            direction = "same"
+        elif isinstance(d, ast.UnaryOp) and isinstance(d.op, ast.Not) and isinstance(d.operand, ast.Name) and \
+                d.operand.id == gs_name:
+            direction = "reversed"
+        else:
+            direction = "other:" + src(d)
+        g = _g(c)
+        pos = {t.split(".")[-1] for t, pol in g if pol}
+        neg = {t.split(".")[-1] for t, pol in g if not pol}
+        if "is_covariant()" in pos:
+            ctx = "covariant"
+        elif "is_contravariant()" in pos or {"is_covariant()", "is_invariant()"} <= neg or \
+                ("is_covariant()" in neg and any(t.startswith("is_invariant()") or "is_invariant() or" in t_ for t_, p_ in g
+                                                  if not p_ for t in [t_.split(".")[-1]])):
+            ctx = "contravariant"
+        else:
+            ctx = "undetermined"
+        want = {"covariant": "same", "contravariant": "reversed"}.get(ctx)
+        obs.append(Ob("C09-R7", "_find_candidate_type_args:_find_types#%d:direction-follows-variance" % i, _w(f, c),
+                      want is not None and direction == want,
+                      "a nested search for type arguments runs in the query direction where the position is covariant and "
+                      "in the opposite direction where it is contravariant; this call is in a %s position (guards %s) and "
+                      "searches in the %s direction" % (ctx, [t for t, p_ in g if p_] + ["not " + t for t, p_ in g if not p_], direction)))
     return obs
 
 
@@ -289,7 +319,7 @@ def rules():
         RuleSpec("C09-R1", "_find_types: what enters the result / self / concreteness / modes", 9, r1_r2_r3_find_types),
         RuleSpec("C09-R4", "find_subtypes / find_supertypes wiring", 2, r4_wiring),
         RuleSpec("C09-R5", "find_irrelevant_type: top type, bound, pool, final relatedness test", 6, r5_r6_irrelevant),
-        RuleSpec("C09-R7", "nested searches for type arguments are concrete", 2, r7_nested_concrete),
+        RuleSpec("C09-R7", "nested searches for type arguments are concrete and run in the direction the variance demands", 4, r7_nested_concrete),
     ]
 
 
